@@ -39,7 +39,9 @@ TRUSTED_BASE = [
 ASSUMPTIONS = [
     "element values are opaque (V arbitrary with decidable equality); dtype handling is not modelled, the campaign "
     "checks that data values and the fill value are carried over unchanged (int64 data)",
-    "index dtype is intp (narrow/unsigned coordinate types are property C15; roll's can_store guard always passes on intp)",
+    "the models compute coordinates in unbounded Z; the campaign's narrow stream (int8/uint8/int16 coordinates, extents and "
+    "results crossing the type's maximum) checks that the implementation's coordinates equal them, i.e. never wrap; roll's "
+    "can_store guard (a documented ValueError on compact index types, property C15) is accepted as a refusal there",
     "the constructor's duplicate-merging pass is the identity on the duplicate-free coordinates every producer hands over "
     "(proved: results are canonical) and is not modelled; the operation cache (enable_caching) is C11/C13",
 ]
@@ -182,7 +184,7 @@ def impl_op(case):
     import sparse
     warnings.filterwarnings("ignore")
     spec, op = case["spec"], case["op"]
-    x = vlib.build_array(spec)
+    x = vlib.build_array(spec, idx_dtype=spec.get("idx_dtype"))
     before = vlib.plain(x)
     try:
         r = apply_op(sparse, x, op)
@@ -662,6 +664,69 @@ def gen_cases(tier, seed):
                        {"op": "moveaxis", "s": 0, "d": 2}, {"op": "broadcast_arrays", "other": [4, 2, 1, 3]}):
                 cases.append({"spec": with_format(s, fmt, ca), "op": op, "stream": "valid", "huge": False})
 
+    # ---- N. narrow index dtypes (int8 / uint8 / int16 coordinates), extents and results crossing 127 / 255 / 32767,
+    #         few stored elements with the high end populated: a result coordinate that wraps is caught by the exact
+    #         comparison with the model (unbounded Z) and by the dense comparison with the Spec
+    def narrow(shape, idt, fill=0, k=5):
+        allidx = list(itertools.product(*[range(d) for d in shape]))
+        pos = set(rng.sample(allidx, min(k, len(allidx)))) | {allidx[-1], allidx[-2 if len(allidx) > 1 else -1], allidx[0]}
+        pos = sorted(pos)
+        vals = [v for v in (1, 2, 3, 4, 5, 6, 7) if v != fill]
+        return {"shape": list(shape), "coords": [list(p) for p in pos], "data": [rng.choice(vals) for _ in pos],
+                "fill": fill, "format": "coo", "caxes": None, "idx_dtype": idt, "dtype": "int64"}
+
+    nshapes = [((200,), "uint8"), ((255,), "uint8"), ((3, 250), "uint8"), ((250, 3), "uint8"), ((1, 200), "uint8"),
+               ((100,), "int8"), ((127,), "int8"), ((120, 2), "int8"), ((2, 125), "int8"),
+               ((300,), "int16"), ((2, 150), "int16")]
+    if th:
+        nshapes += [((2, 2, 120), "uint8"), ((60, 4), "int8"), ((254,), "uint8"), ((126,), "int8")]
+    for shape, idt in nshapes:
+        nd = len(shape)
+        big = max(shape)
+        for fill in (0, 3):
+            s = narrow(shape, idt, fill)
+            cvv = None if fill == 0 else fill
+            hi = shape.index(big)
+            ops = [
+                {"op": "pad", "pw": [[100 if a == hi else 0, 0] for a in range(nd)], "cv": cvv},
+                {"op": "pad", "pw": [[rng.randint(20, 140) if a == hi else rng.randint(0, 2), rng.randint(0, 40)] for a in range(nd)], "cv": cvv},
+                {"op": "pad", "pw": rng.choice([30, 60, 130]), "cv": cvv},
+                {"op": "pad", "pw": [rng.randint(1, 150), rng.randint(0, 3)], "cv": cvv},
+                {"op": "flip", "axis": None}, {"op": "flip", "axis": hi - nd},
+                {"op": "roll", "shift": rng.randint(1, big), "axis": hi}, {"op": "roll", "shift": -rng.randint(1, big), "axis": hi - nd},
+                {"op": "roll", "shift": rng.randint(1, 7), "axis": None},
+                {"op": "roll", "shift": [rng.randint(1, 90)] * nd, "axis": list(range(nd))},
+                {"op": "T"}, {"op": "transpose", "axes": list(range(nd))[::-1], "api": "permute_dims"},
+                {"op": "flatten"}, {"op": "reshape", "shape": [-1], "api": "method"},
+                {"op": "expand_dims", "axis": 0}, {"op": "expand_dims", "axis": -1},
+                {"op": "broadcast_to", "shape": [2] + list(shape), "api": "method"},
+                {"op": "broadcast_to", "shape": [3 if d == 1 else d for d in shape], "api": "func"},
+                {"op": "squeeze", "axis": None, "api": "method"},
+                {"op": "moveaxis", "s": 0, "d": -1},
+            ]
+            tot = 1
+            for d in shape:
+                tot *= d
+            for f in ordered_factorizations(tot, 2):
+                if f[0] in (2, 3, 5) or f[1] in (2, 3, 5):
+                    ops.append({"op": "reshape", "shape": f, "api": "method"})
+                    ops.append({"op": "reshape", "shape": [f[0], -1], "api": "func"})
+            for op in ops:
+                cases.append({"spec": s, "op": op, "stream": "narrow", "huge": False})
+            if nd == 2:     # GCXS whose tocoo() keeps the compact coordinates
+                sg = dict(s)
+                sg["format"], sg["caxes"] = "gcxs", [rng.choice([0, 1])]
+                for op in ops[:4] + ops[10:14]:
+                    cases.append({"spec": sg, "op": op, "stream": "narrow", "huge": False})
+    # int16 across 32767 (stored positions only are compared: logical size beyond the dense bound)
+    for shape in ((32700,), (2, 16380)):
+        s = narrow(shape, "int16", 0)
+        nd = len(shape)
+        for op in ({"op": "pad", "pw": [[0, 0]] * (nd - 1) + [[100, 0]], "cv": None}, {"op": "pad", "pw": 40, "cv": None},
+                   {"op": "flip", "axis": None}, {"op": "flatten"}, {"op": "T"}, {"op": "expand_dims", "axis": 0},
+                   {"op": "reshape", "shape": [-1, 2], "api": "method"}, {"op": "broadcast_to", "shape": [2] + list(shape), "api": "method"}):
+            cases.append({"spec": s, "op": op, "stream": "narrow", "huge": True})
+
     # ---- K. malformed stream: arguments NumPy rejects (compare the exception class with the model)
     mal = []
     for _ in range(40 if not th else 200):
@@ -738,7 +803,7 @@ def np_incomparable(c):
 def replay_line(case):
     s, op = case["spec"], case["op"]
     return ("import sys; sys.path.insert(0,'/verif/tools'); import vlib, sparse, numpy as np; from props.c08 import apply_op, apply_np; "
-            f"s={json.dumps(s)}; op={json.dumps(op)}; x=vlib.build_array(s); d=vlib.spec_dense(s)\n"
+            f"s={json.dumps(s)}; op={json.dumps(op)}; x=vlib.build_array(s, idx_dtype=s.get('idx_dtype')); d=vlib.spec_dense(s)\n"
             "def t(f):\n"
             "    try:\n"
             "        r=f(); return (type(r).__name__, getattr(r,'shape',None), (r.todense() if hasattr(r,'todense') else r).tolist() if np.prod(getattr(r,'shape',(1,)))<10**5 else r)\n"
@@ -756,6 +821,11 @@ def campaign(build, tier, seed, report, budget=1):
     for i, (c, r) in enumerate(zip(cases, res, strict=True)):
         op = c["op"]
         fmt = c["spec"]["format"]
+        if c["spec"].get("idx_dtype") and op["op"] == "roll" and r is not None and \
+                (r.get("exc") == "ValueError" and "coords.dtype" in (r.get("msg") or "")):
+            # roll's can_store guard refuses shifts that do not fit the compact index type (documented; C15)
+            tags["roll/narrow_refused"] = tags.get("roll/narrow_refused", 0) + 1
+            continue
         if r is not None and r.get("k") == "notoffered":
             key = f"{op['op']}/{fmt}"
             not_offered[key] = not_offered.get(key, 0) + 1
@@ -764,7 +834,7 @@ def campaign(build, tier, seed, report, budget=1):
         ol = op_lit(op)
         keep.append(i)
         lits.append(vpair(xl, ol, vlib.sarr_lit(r)))
-        if r and "np" in r and not np_incomparable(c):
+        if r and "np" in r and not np_incomparable(c) and len(r["np"].get("flat") or []) <= 1200:
             np_idx.append(i)
             np_lits.append(vpair(xl, ol, vlib.sarr_lit(r["np"])))
         outcome = "raise" if (r or {}).get("k") == "exc" or "exc" in (r or {}) and "k" not in (r or {}) else (r or {}).get("k", "hang")
@@ -842,7 +912,7 @@ def campaign(build, tier, seed, report, budget=1):
             viol.append({"property": "C08", "op": "kernel:" + kind, "kind": "representation", "clause": "kernel_differs_from_model",
                          "case": kcs[j], "impl": kres[j], "replay_py": "print('kernel case', %r)" % (kcs[j],)})
     # Spec vs NumPy itself (validates Spec/NpShapeOps.v; independent of the implementation)
-    spec_bad = build.judge("c08_specnp", imports, "c08_case", "judge_spec_np", np_lits, chunk=400, timeout=600)
+    spec_bad = build.judge("c08_specnp", imports, "c08_case", "judge_spec_np", np_lits, chunk=60, timeout=600)
     for k, code in spec_bad:
         i = np_idx[k]
         c, r = cases[i], res[i]
@@ -871,7 +941,7 @@ def campaign(build, tier, seed, report, budget=1):
     cov["unproved_statements"] = UNPROVED
     cov["differential_only"] = ["GCXS and DOK results (dense meaning vs Spec)",
                                 "dtype of the result (compared with the operand's dtype in Python; int64/float64/int16/complex128)"]
-    cov["streams"] = {s: sum(1 for i in keep if cases[i]["stream"] == s) for s in ("valid", "malformed", "huge")}
+    cov["streams"] = {s: sum(1 for i in keep if cases[i]["stream"] == s) for s in ("valid", "malformed", "huge", "narrow")}
     return viol
 
 
